@@ -20,6 +20,11 @@ Three parts (see the header of Concurrency.tla and docs/C17.md):
       two reasons why a check can be blind to them).  The binding runs the REAL controller scheduling path + the real
       messenger + the real aggregator + the head event handler under -race over TLC's enumeration of (environment,
       overlap); a panic of Vouch's code is the event Crash, a call or goroutine that never finishes the event Hung.
+  Group builderclients (fifth round, sibling code paths): the shared helper util.FetchBuilderClient (process-wide map of
+      relay clients) is a component of the specification with state; class builder-client-fast-path (a known client
+      handed out before the lock is taken) must be rejected, and accepted when every client exists before the overlap
+      (what drivers that pre-register fake relay clients look at).  Binding: ONE wired instance (real block relay + real
+      best / deadline strategies + real HTTP relay clients), relays that are new to the process in every history.
 """
 import random
 import concurrent.futures
